@@ -78,6 +78,21 @@ func (e *Engine) externalModel(st *State, full string, fn *types.Func, args []Va
 		b := args[1].(SliceV)
 		eq := And(Eq(a.ln, b.ln), e.arrayEq(st, Sel(st.Mem, a.blk), a.off, Sel(st.Mem, b.blk), b.off, a.ln))
 		return BoolV{e.nameQ("beq", eq)}, true
+	case full == "bytes.HasPrefix":
+		e.noteAssumption("model of bytes.HasPrefix (built in)")
+		a := args[0].(SliceV)
+		b := args[1].(SliceV)
+		r := And(Ge(a.ln, b.ln), e.arrayEq(st, Sel(st.Mem, a.blk), a.off, Sel(st.Mem, b.blk), b.off, b.ln))
+		return BoolV{e.nameQ("hp", r)}, true
+	case full == "bytes.Compare":
+		e.noteAssumption("model of bytes.Compare (built in)")
+		a := args[0].(SliceV)
+		b := args[1].(SliceV)
+		x := bytesOp{Sel(st.Mem, a.blk), a.off, a.ln}
+		y := bytesOp{Sel(st.Mem, b.blk), b.off, b.ln}
+		r := e.fresh("cmp", SInt)
+		e.assume(st, And(Or(Eq(r, I(-1)), Eq(r, I(0)), Eq(r, I(1))), Eq(Eq(r, I(-1)), e.lexLess(x, y)), Eq(Eq(r, I(1)), e.lexLess(y, x))), "bytes.Compare")
+		return IntV{r}, true
 	case strings.HasPrefix(full, "github.com/massnetorg/mass-core/logging."):
 		e.noteAssumption("logging calls have no effect on wallet state (arguments still evaluated)")
 		return TupleV{}, true
